@@ -262,7 +262,7 @@ def r_framefile(prog, tier):
     obs.append(Ob('R-FRAMEFILE/ONCE', f.fq, 'split and plain branch apply the transformations identically (each with '
                   'the --params options, stopping when a tree is dropped)',
                   True if (same and expected) else (None if any(d_[0] == 'other' for x_ in norm for d_ in x_)
-                                                    or any(len(x_) != 2 for x_ in norm) else False),
+                                                    or any(len(x_) > 2 or not x_ for x_ in norm) else False),
                   'both loops: tree = globals()[algorithm](tree, **options_dict(args.params)); break when None'
                   if same and expected else 'loops differ or are not the documented pipeline: %s vs %s' % (norm[0], norm[1]),
                   construct='once-trans', line=tl[0].lineno))
@@ -850,6 +850,36 @@ def r_state(prog, tier):
                     obs.append(Ob('R-STATE/G5', f.fq, 'what is written does not depend on set (hash) order: `%s`' % unparse(n)[:60],
                                   False, 'a list built by iterating a set is written out: the order of the items changes from '
                                   'run to run', construct='g5-comp:' + unparse(n)[:60], line=n.lineno))
+    # ---- G7 nodes are not moved in set (hash) order
+    g7 = 0
+    for mod in ('transform', 'trees'):
+        for f in sorted(prog.modules[mod].funcs.values(), key=lambda x: x.fq):
+            for n in walk_own(f.node):
+                if not isinstance(n, ast.For):
+                    continue
+                src = n.iter
+                if isinstance(src, ast.Name):
+                    d = [v for (_, v) in name_defs(f, src.id) if isinstance(v, ast.AST)]
+                    src = d[0] if len(d) == 1 else src
+                if not (isinstance(src, (ast.Set, ast.SetComp)) or (isinstance(src, ast.Call) and unparse(src.func) in ('set', 'frozenset'))):
+                    continue
+                body_txt = [unparse(b) for b in n.body]
+                moves = any('.children.remove(' in t or '.children.append(' in t or '.children.insert(' in t or '.parent = ' in t
+                            for t in body_txt)
+                reads = any(isinstance(x, ast.If) and ('.children' in unparse(x.test) or 'children(' in unparse(x.test)
+                                                       or '.parent' in unparse(x.test))
+                            for b in n.body for x in ast.walk(b))
+                if moves:
+                    g7 += 1
+                    obs.append(Ob('R-STATE/G7', f.fq, 'nodes are not re-attached in set (hash) order: `for %s in %s`'
+                                  % (unparse(n.target), unparse(n.iter)), False if reads else None,
+                                  'the loop moves nodes and tests the structure it is changing; it runs over a set of nodes, whose '
+                                  'order follows the node ids - a process-wide counter: which node is moved first depends on how '
+                                  'many nodes were created before this sentence' if reads else
+                                  'nodes are moved in the order of a set of nodes (node ids); whether the moves commute is not decided',
+                                  construct='g7:' + f.fq, line=n.lineno))
+    obs.append(Ob('R-STATE/G7', 'package', 'scan for node moves driven by set iteration covered transform and trees', True,
+                  '%d found' % g7, construct='g7-scan', nontrivial=False))
     # ---- G6 writer purity
     obs.extend(_writer_purity(prog))
     return obs, {}
